@@ -22,6 +22,7 @@ RULE = (
     "schedules for larger programs; plus real-thread runs of solver queries with a passive monitor at every exit "
     "of the guard (collector disabled, count >= 1, read under the guard's own lock).  Non-trivial: the schedule has "
     "at least one decision with two runnable threads; distinct by (programs, schedule) hash."
+    " Session 4: 'leave' shard - every way a call can be left (return, solver error, callback raising, callback changing the SIGINT handler, nested call left by exception, cache evictions during the call, backend calls that raise), state checked after each."
 )
 ASSUMPTIONS = [
     "preemption happens between statements of the three guarded functions (CPython switches threads between bytecodes; the statements of these functions are single reads/writes or lock operations)",
